@@ -98,8 +98,8 @@ impl Property for C08 {
     }
     fn cases(&self, tier: Tier) -> u64 {
         match tier {
-            Tier::Quick => 400000,
-            Tier::Thorough => 6000000,
+            Tier::Quick => 2_000_000,
+            Tier::Thorough => 25_000_000,
         }
     }
     fn decode(&mut self, tape: &TapeVal) -> Case {
